@@ -188,6 +188,17 @@ class _ShardState:
             return Violation("%s/%s/impl-exception:%s@%s" % (
                 self.prop_id, self.clause.name, type(exc).__name__, where),
                 "unexpected exception from the implementation: %r" % (exc,))
+        # the check itself tripped over what the implementation handed back (a missing key, a None where a record was
+        # expected, ...): the output does not have the shape the property describes.  RuntimeError is reserved for the
+        # harness's own self-checks and stays a harness error.
+        if isinstance(exc, (KeyError, IndexError, TypeError, AttributeError, ValueError, AssertionError)) and not isinstance(exc, RuntimeError):
+            tb = traceback.extract_tb(exc.__traceback__)
+            props_dir = os.path.join(VERIF_DIR, "vlib", "props") + os.sep
+            last = tb[-1] if tb else None
+            if last is not None and os.path.abspath(last.filename).startswith(props_dir):
+                return Violation("%s/%s/output-not-processable:%s@%s" % (self.prop_id, self.clause.name, type(exc).__name__, last.name),
+                                 "the check could not process what the implementation returned (%s line %d: %r)"
+                                 % (os.path.basename(last.filename), last.lineno, exc))
         return None
 
     def run_case(self, case):
